@@ -30,7 +30,8 @@ ASSUMPTIONS = {
     "A13": "solvers: a query with sequence/string operations counts as proved only when a cvc5 (1.0.3, 1.0.3 --seq-array=lazy or 1.4) "
            "answers unsat -- on the query itself or on z3's quantifier-free certificate (ground part + the lemma instances of z3's "
            "refutation); z3 5.1 alone is trusted only for pure datatype/arithmetic queries; sequence queries run in killable child "
-           "processes (z3-new CLI, /usr/bin/cvc5, cvc5 wheel)",
+           "processes (z3-new CLI, /usr/bin/cvc5, cvc5 wheel); the SMT-LIB text z3 prints is adapted for cvc5 by syntactic "
+           "rewriting only (declaration order, seq.nth variants, z3's array-encoded finite sets -> cvc5's theory of sets)",
     "A14": "the VC generator itself (pyvc: ast -> VCs; Python semantics of the accepted subset as listed in DESIGN 2.2-2.6, dicts as "
            "association lists with first-match lookup, ownership discipline for in-place mutation) is trusted; it is cross-checked "
            "against CPython by evaluating every contract on the real function (function_contract_evaluations) and by canaries",
